@@ -43,6 +43,9 @@ type EdResult struct {
 	OK    bool
 	Stage string // ok, length, y-range, no-sqrt, x-zero-sign, spare-bits
 	P     EPoint
+	// Branch of the square-root computation that produced x (edwards25519 only):
+	// "direct" (v·x² = u) or "times-sqrt(-1)" (v·x² = −u).
+	Branch string
 }
 
 // Ed25519Decode implements RFC 8032 §5.1.3.
@@ -70,10 +73,12 @@ func Ed25519Decode(b []byte) EdResult {
 	x = mod(new(big.Int).Mul(mod(new(big.Int).Mul(u, v3)), x))
 	vx2 := mod(new(big.Int).Mul(v, mod(new(big.Int).Mul(x, x))))
 	negu := mod(new(big.Int).Neg(u))
+	branch := "direct"
 	switch {
 	case vx2.Cmp(u) == 0:
 	case vx2.Cmp(negu) == 0:
 		x = mod(new(big.Int).Mul(x, sqrtM1))
+		branch = "times-sqrt(-1)"
 	default:
 		return EdResult{Stage: "no-sqrt"}
 	}
@@ -83,7 +88,46 @@ func Ed25519Decode(b []byte) EdResult {
 	if x.Bit(0) != x0 {
 		x = mod(new(big.Int).Sub(p, x))
 	}
-	return EdResult{OK: true, Stage: "ok", P: EPoint{x, y}}
+	return EdResult{OK: true, Stage: "ok", P: EPoint{x, y}, Branch: branch}
+}
+
+// sqrt25519 returns a square root of a modulo 2^255-19 (p ≡ 5 mod 8) if one exists.
+func sqrt25519(a *big.Int) (*big.Int, bool) {
+	p := P25519
+	a = new(big.Int).Mod(a, p)
+	c := new(big.Int).Exp(a, new(big.Int).Rsh(new(big.Int).Add(p, three), 3), p)
+	c2 := new(big.Int).Mul(c, c)
+	c2.Mod(c2, p)
+	if c2.Cmp(a) == 0 {
+		return c, true
+	}
+	na := new(big.Int).Sub(p, a)
+	na.Mod(na, p)
+	if c2.Cmp(na) == 0 {
+		c.Mul(c, sqrtM1)
+		return c.Mod(c, p), true
+	}
+	return nil, false
+}
+
+// Ed25519LiftX solves -x² + y² = 1 + d x² y² for y: y² = (1 + x²)/(1 - d x²).
+func Ed25519LiftX(x *big.Int) (EPoint, bool) {
+	p := P25519
+	x = new(big.Int).Mod(x, p)
+	x2 := new(big.Int).Mul(x, x)
+	x2.Mod(x2, p)
+	den := new(big.Int).Sub(one, new(big.Int).Mul(d25519, x2))
+	den.Mod(den, p)
+	if den.Sign() == 0 {
+		return EPoint{}, false
+	}
+	num := new(big.Int).Add(one, x2)
+	num.Mul(num, new(big.Int).ModInverse(den, p))
+	y, ok := sqrt25519(num)
+	if !ok {
+		return EPoint{}, false
+	}
+	return EPoint{x, y}, true
 }
 
 // Ed25519Encode implements RFC 8032 §5.1.2.
@@ -189,6 +233,28 @@ func Ed448Decode(b []byte) EdResult {
 		x = mod(new(big.Int).Sub(p, x))
 	}
 	return EdResult{OK: true, Stage: "ok", P: EPoint{x, y}}
+}
+
+// Ed448LiftX solves x² + y² = 1 + d x² y² for y: y² = (1 - x²)/(1 - d x²).
+func Ed448LiftX(x *big.Int) (EPoint, bool) {
+	p := P448
+	x = new(big.Int).Mod(x, p)
+	x2 := new(big.Int).Mul(x, x)
+	x2.Mod(x2, p)
+	den := new(big.Int).Sub(one, new(big.Int).Mul(d448, x2))
+	den.Mod(den, p)
+	if den.Sign() == 0 {
+		return EPoint{}, false
+	}
+	num := new(big.Int).Sub(one, x2)
+	num.Mul(num, new(big.Int).ModInverse(den, p))
+	num.Mod(num, p)
+	y := new(big.Int).Exp(num, new(big.Int).Rsh(new(big.Int).Add(p, one), 2), p)
+	y2 := new(big.Int).Mul(y, y)
+	if y2.Mod(y2, p).Cmp(num) != 0 {
+		return EPoint{}, false
+	}
+	return EPoint{x, y}, true
 }
 
 // Ed448Encode implements RFC 8032 §5.2.2.
